@@ -435,4 +435,118 @@ def poolOracle (post : Committee × Nat × Pool → Post) : PoolOracle (Committe
   hasScheduler := fun x => workerTotal x.1 > 0
   reset := fun x => (x.1, x.2.1, Pool.empty)
 
+/-! ### C10 (the roothash `EndBlock` never returns an error): statements used by `OasisProofs.Props.C10Timer`
+
+Added for C10; nothing above is changed. The suspension of a runtime at an epoch transition
+(roothash.go:208-222: `registry.SuspendRuntime`, `finalizeBlock(…, block.Suspended, nil)`,
+`rtState.Suspended = true`, `rtState.Committee = nil`) is the step `.committeeChanged id true _ _ rt` above:
+`finalizeBlock` sets `CommitmentPool = nil` (finalization.go:317-319), `NextTimeout = TimeoutNever` and calls
+`rearmRoundTimeout(prev, TimeoutNever)` (finalization.go:324-328), which removes the queue entry. -/
+
+/-- `getRuntimeState` (transactions.go:21-42) returns the state of runtime `id` without error: the state
+exists, is not suspended, has a committee and a commitment pool. -/
+def State.Live {π : Type} (s : State π) (id : Nat) : Prop :=
+  ∃ r p, s.rts id = some r ∧ r.suspended = false ∧ r.hasCommittee = true ∧ r.pool = some p
+
+/-- THE invariant of C10 for the round timers: a runtime with a queued timer (at any height) is not
+suspended and has a committee and a pool — `processRoundTimeout` will not fail in `getRuntimeState`. -/
+def QueuedLive {π : Type} (s : State π) : Prop := ∀ (t : Int) (id : Nat), (t, id) ∈ s.queue → s.Live id
+
+/-- The same in terms of the runtime states: an armed `NextTimeout` implies a live runtime. -/
+def ArmedLive {π : Type} (s : State π) : Prop :=
+  ∀ id r, s.rts id = some r → r.nextTimeout ≠ timeoutNever →
+    r.suspended = false ∧ r.hasCommittee = true ∧ ∃ p, r.pool = some p
+
+/-- Every runtime registered for finalization in this block (`RuntimesToFinalize`) is live. -/
+def RegisteredLive {π : Type} (s : State π) : Prop := ∀ id ∈ s.toFinalize, s.Live id
+
+/-- Every stored commitment pool satisfies `G`. -/
+def PoolsGood {π : Type} (G : π → Prop) (s : State π) : Prop :=
+  ∀ id r p, s.rts id = some r → r.pool = some p → G p
+
+/-- What C10 needs from the commitment pool and the code after `ProcessCommitments`, on a class `G` of
+pools that is closed under processing and reset: none of the `return err` exits of
+`tryFinalizeRoundInsideTx` is taken. Each field is shown necessary in `OasisProofs.Props.C10Timer`.
+For the pool model of `OasisModel.Roothash`: `retry` is `C11.retry_never_discrepancy`, `no_nil` is the
+content of `C11.sc_has_commitment`, `scheduler` is "the committee has a worker". `no_abort` covers
+finalization.go:155,173,180,224,259,272 (state unavailable, slashing — `Props/C10Slash`, `Props/C10Ledger`). -/
+structure PoolSafe {π : Type} (O : PoolOracle π) (G : π → Prop) : Prop where
+  process_good : ∀ p t, G p → G (O.process p t).1
+  reset_good : ∀ p, G p → G (O.reset p)
+  /-- finalization.go:155,173,180,224,259,272 are not taken. -/
+  no_abort : ∀ p, G p → O.post p ≠ Post.abort
+  /-- `sc.Commitment` is not nil where it is dereferenced. -/
+  no_nil : ∀ p t, G p → (O.process p t).2 ≠ Res.nilDeref
+  /-- finalization.go:134-136 ("This was already handled above, so it should not happen"). -/
+  retry : ∀ p t t', G p → (O.process p t).2 = Res.discrepancyDetected →
+    (O.process (O.process p t).1 t').2 ≠ Res.discrepancyDetected
+  /-- finalization.go:346-349: `Committee.SchedulerIdx(round, 0)` finds a worker. -/
+  scheduler : ∀ p, G p → O.hasScheduler p = true
+
+/-- The pool a step installs in a runtime state, if any (a suspension installs `nil`). -/
+def Step.pool? {π : Type} : Step π → Option π
+  | .newRuntime _ _ => none
+  | .committeeChanged _ suspend _ p _ => if suspend then none else some p
+  | .executorCommit _ p _ => some p
+
+def Step.isCommit {π : Type} : Step π → Bool
+  | .executorCommit _ _ _ => true
+  | _ => false
+
+def Step.isCommitteeChange {π : Type} : Step π → Bool
+  | .committeeChanged _ _ _ _ _ => true
+  | _ => false
+
+/-- Every pool a block installs satisfies `G`. -/
+def Block.PoolsIn {π : Type} (G : π → Prop) (b : Block π) : Prop :=
+  ∀ st ∈ b.steps, ∀ p, st.pool? = some p → G p
+
+/-- The order of one consensus block: `onRuntimeCommitteeChanged` is only called from `BeginBlock`
+(roothash.go:88-101), executor commits are transactions (`ExecuteTx`, roothash.go:321-329), so no committee
+change follows an executor commit within a block. (`onNewRuntime` is called from a registry transaction
+and may come anywhere.) -/
+def Block.Ordered {π : Type} (b : Block π) : Prop :=
+  b.steps.Pairwise (fun a c => ¬(a.isCommit = true ∧ c.isCommitteeChange = true))
+
+/-- `Reachable` for histories whose blocks install only pools in `G`. -/
+inductive ReachableG {π : Type} (O : PoolOracle π) (G : π → Prop) (H : Int) : Int → State π → Prop
+  | init (h0 : Int) : 0 ≤ h0 → ReachableG O G H h0 State.empty
+  | block {h0 : Int} {s s' : State π} {evs : List Ev} (b : Block π) :
+      ReachableG O G H h0 s → b.height = h0 + 1 → b.height ≤ H → b.Ok H → b.PoolsIn G →
+      execBlock O b s = some (s', evs) → ReachableG O G H b.height s'
+
+/-! ### the seeded change C10-t1 (not the code): a suspension that forgets the queue -/
+
+/-- `step` in which the suspension resets the in-state field `NextTimeout` (and pool, committee, flag) as
+the code does but does NOT call `rearmRoundTimeout`: the queue entry stays. Every other step is `step`. -/
+def stepStale {π : Type} (h : Int) (s : State π) (st : Step π) : Option (State π) :=
+  match st with
+  | .committeeChanged id true _ _ roundTimeout =>
+    match s.rts id with
+    | none => none
+    | some r =>
+      some { s with
+        rts := setRt s.rts id { r with pool := none, nextTimeout := timeoutNever, suspended := true,
+                                       hasCommittee := false, roundTimeout := roundTimeout } }
+  | _ => step h s st
+
+def stepsStale {π : Type} (h : Int) : List (Step π) → State π → Option (State π)
+  | [], s => some s
+  | st :: rest, s =>
+    match stepStale h s st with
+    | none => none
+    | some s1 => stepsStale h rest s1
+
+def execBlockStale {π : Type} (O : PoolOracle π) (b : Block π) (s : State π) : Option (State π × List Ev) :=
+  match stepsStale b.height b.steps (beginBlock s) with
+  | none => none
+  | some s1 => endBlock O b.height s1
+
+/-- `Reachable` with the seeded suspension; `EndBlock` is the code's. -/
+inductive ReachableStale {π : Type} (O : PoolOracle π) (H : Int) : Int → State π → Prop
+  | init (h0 : Int) : 0 ≤ h0 → ReachableStale O H h0 State.empty
+  | block {h0 : Int} {s s' : State π} {evs : List Ev} (b : Block π) :
+      ReachableStale O H h0 s → b.height = h0 + 1 → b.height ≤ H → b.Ok H →
+      execBlockStale O b s = some (s', evs) → ReachableStale O H b.height s'
+
 end OasisModel.Roothash.Timer
